@@ -127,3 +127,17 @@ package runtime
 //@ func NewScope
 //@   modifies nothing
 //@   ensures  fresh(result) && scopeWF(result) && result.localCount == 0 && result.currentDepth == 0 && result.externalRefs != nil
+
+// ---- interface-level contracts: what every caller of an Element may rely on (C10) ----
+// Every r.Element stored in the heap is a non-nil interface holding a non-nil pointer (heap invariant built
+// into znvc: assumed at loads, asserted at stores).
+
+//@ pred okElem(e Element) = e != nil && e.ptr != 0
+
+//@ iface Element.String(self) (s)
+//@ iface Element.GetProperty(self, name) (r, err)
+//@   ensures err == nil ==> okElem(r)
+//@ iface Element.SetProperty(self, name, value) (err)
+//@   requires okElem(value)
+//@ iface Element.ExecMethod(self, name, params) (r, err)
+//@   ensures err == nil ==> okElem(r)
